@@ -38,7 +38,9 @@ PROVED = ('parse_uri returns dongle id, channel, data rate, MSB-first 5-byte add
           'rate and address and the address given to the radio during the scan is the same; the six scheme tests are '
           'pairwise exclusive, get_link_driver returns the unique claiming driver or None, unknown schemes give None; '
           'open_link never lets an exception escape and calls connection_failed exactly once when there is no link; '
-          'uri_helper.address_from_env returns the same address as parse_uri for every well-formed URI.')
+          'uri_helper.address_from_env returns the same address as parse_uri for every well-formed URI; scan_selected '
+          'probes every well-formed link on the channel and rate parse_uri returns and its reports parse back to the '
+          'probed channel, rate and address.')
 NOT_PROVED = ('CfLinkCppDriver; prrt fields; IPv6 literals in brackets; behaviour on non-ASCII URIs or escapes >= %80; what happens after a driver was '
               'selected (connection setup is C02).')
 
@@ -58,6 +60,8 @@ class _FakeRadio:
 
     def __init__(self, found=None):
         self.calls = []
+        self.probes = []
+        self.air = []
         self.found = found or {}
         self.rate = None
         self.closed = False
@@ -77,6 +81,17 @@ class _FakeRadio:
 
     def scan_channels(self, start, stop, packet):
         return tuple(self.found.get(self.rate, ()))
+
+    def scan_selected(self, selected, packet):
+        # what _SharedRadio + Crazyradio.scan_selected do: every entry is probed on its channel and data rate with
+        # the address this radio instance currently has; the entries that are acknowledged come back
+        addr = [c[1] for c in self.calls if c[0] == 'RSetAddress'][-1:] or [[0xE7] * 5]
+        out = ()
+        for sel in selected:
+            self.probes.append([sel['channel'], sel['datarate'], list(addr[0])])
+            if [sel['channel'], sel['datarate'], list(addr[0])] in self.air:
+                out += (sel,)
+        return out
 
     def close(self):
         self.closed = True
@@ -661,6 +676,104 @@ def _model_fields(mv, serial_devs):
     return out
 
 
+
+# ------------------------------------------------------------------------------------------ scan_selected
+def impl_scan_selected(conn_uri, links, air):
+    """A RadioDriver connected to conn_uri (fake shared radio) is asked to probe `links`; Crazyflies answer on the
+    (channel, rate, address) triples in `air`.  Returns ['ok', reported uris, probes] or ['raise', type]."""
+    from cflib.crtp.radiodriver import RadioDriver
+    w = _World()
+    with _patched(w):
+        import cflib.crtp.radiodriver as rd
+        rd.RadioManager.open = staticmethod(lambda devid: _open_any(w, devid))
+        d = RadioDriver()
+        d.connect(conn_uri, None, None)
+        w.radios[-1].air = [list(a[:2]) + [list(a[2])] for a in air]
+        try:
+            res = d.scan_selected(list(links))
+        except Exception as e:  # noqa
+            return ['raise', type(e).__name__]
+    return ['ok', list(res), w.radios[-1].probes]
+
+
+def gen_scan_selected(rng):
+    """Links over the three rates / omitted rate / with address / odd ones, an air with Crazyflies on some of the
+    probed (channel, rate) pairs plus decoys on the same channel at another rate or another address."""
+    conn_addr = rng.choice([0xE7E7E7E7E7] * 3 + [0xE7E7E7E701, rng.randrange(1 << 40)])
+    conn = 'radio://%d/%d/%s' % (rng.choice([0, 0, 1]), rng.randrange(126), rng.choice(RATES))
+    if conn_addr != 0xE7E7E7E7E7 or rng.random() < 0.3:
+        conn += '/%010X' % conn_addr
+    links, want = [], []
+    for _ in range(rng.randrange(0, 6)):
+        ch = rng.randrange(126)
+        r = rng.randrange(3)
+        k = rng.random()
+        if k < 0.55:
+            link, rate = 'radio://0/%d/%s' % (ch, RATES[r]), r
+        elif k < 0.7:
+            link, rate = 'radio://0/%d' % ch, 2
+        elif k < 0.85:
+            link, rate = 'radio://%d/%d/%s/%s' % (rng.choice([0, 3]), ch, RATES[r], rng.choice(['E7E7E7E7E7', 'E7E7E7E701', 'e7'])), r
+        else:
+            link, rate = 'radio://0/%d/%s%s' % (ch, RATES[r], rng.choice(['?rate_limit=5', '/', 'x', '#f'])), r
+        links.append(link)
+        want.append((ch, rate))
+    bad = rng.random()
+    if bad < 0.08:
+        links.insert(rng.randrange(len(links) + 1), rng.choice(['radio://0', 'radio://0/', 'usb://0', 'radio://x/1/2M', '', 'radio://0/1_0/2M',
+                                                                 'radio://0/ 5/1M', 'radio://0/80/3M', 'radio://0/80/250k', 'radio://0/80/250']))
+    addr = list(conn_addr.to_bytes(5, 'big'))
+    air = []
+    for (ch, rate) in want:
+        k = rng.random()
+        if k < 0.5:
+            air.append([ch, rate, addr])
+        if rng.random() < 0.5:
+            air.append([ch, (rate + rng.randrange(1, 3)) % 3, addr])            # decoy: same channel, other rate
+        if rng.random() < 0.2:
+            air.append([ch, rate, [1, 2, 3, 4, 5]])                             # decoy: other address
+    return {'fn': 'scan_selected', 'conn': conn, 'links': links, 'air': air}
+
+
+def _scan_selected_term(c):
+    air = '[' + '; '.join('(%d, %d, %s)' % (a[0], a[1], coqrun.zlist(a[2])) for a in c['air']) + ']'
+    links = '[' + '; '.join(_cs(l) for l in c['links']) + ']'
+    return ('(forallb in_scope %s, match parse_uri [] (%s) with POk _ _ _ a _ => '
+            'option_map (map l2s) (scan_selected %s a %s) | _ => None end, scan_selected_settings %s)' % (
+                links, _cs(c['conn']), air, links, links))
+
+
+def _check_scan_selected(c):
+    """Property text: the URIs reported are exactly the selected links' (channel, rate) on which a Crazyflie answers
+    at the address that was probed, and each parses back to that channel and rate."""
+    conn = impl_parse(c['conn'], [])
+    addr = conn[4]
+    want_pairs = []
+    import re
+    for l in c['links']:
+        m = re.match(r'^radio://[0-9]+/([0-9]+)(?:/(250K|1M|2M))?', l)
+        if not m:
+            return None                                   # a link scan_selected cannot read: nothing to judge
+        want_pairs.append([int(m.group(1)), {'250K': 0, '1M': 1, '2M': 2, None: 2}[m.group(2)]])
+    got = impl_scan_selected(c['conn'], c['links'], c['air'])
+    answering = [p for p in want_pairs if [p[0], p[1], addr] in c['air']]
+    if got[0] != 'ok':
+        return {'class': 'scan_selected_raises', 'case': c, 'expected': answering, 'observed': got}
+    back = [impl_parse(u, []) for u in got[1]]
+    back_pairs = [[b[2], b[3]] if b[0] == 'POk' else b for b in back]
+    if back_pairs != answering:
+        return {'class': 'scan_selected_wrong_rate_or_channel', 'case': c, 'expected': answering, 'observed': [got[1], back_pairs],
+                'detail': 'URIs reported by scanning must parse back to the scanned channel and rate, one per answering selected link'}
+    if [p[:2] for p in got[2]] != want_pairs:
+        return {'class': 'scan_selected_wrong_rate_or_channel', 'case': c, 'expected': want_pairs, 'observed': got[2],
+                'detail': 'every selected link is probed on its own channel and data rate (250K is data rate 0)'}
+    if any(b[0] == 'POk' and b[4] != addr for b in back):
+        return {'class': 'scan_selected_uri_without_probed_address', 'case': c, 'expected': addr,
+                'observed': [got[1], [b[4] for b in back if b[0] == 'POk']],
+                'detail': 'the probes used the address of the connected link, the reported URIs parse back to the default address'}
+    return None
+
+
 # ------------------------------------------------------------------------------------------ tie
 def _in_scope_py(uri):
     return all(32 <= ord(c) <= 126 for c in uri)
@@ -885,8 +998,31 @@ def tie(ctx):
                 dis.append({'what': 'driver URI parser: fields seen by the device layer differ', 'uri': u, 'model': want, 'impl': got})
         elif any(isinstance(v, list) and v[0] in ('UOk', 'NOk', 'SDev') for v in got.values()):
             nontriv += 1
+    # ---- 6. scan_selected on a connected RadioDriver (fake air with Crazyflies and decoys)
+    scases = [c for c in _corpus_cases() if c.get('fn') == 'scan_selected'] + [gen_scan_selected(rng) for _ in range(ctx.scale(300, 4000))]
+    smodel = coqrun.eval_terms(HEADER, [_scan_selected_term(c) for c in scases], tag='c20g', shard=100)
+    dist['scan_selected'] = 0
+    dist['scan_selected_kinds'] = {'reports': 0, 'raises': 0, '250K_links': 0, 'non_default_address': 0}
+    for c, mv in zip(scases, smodel):
+        if not mv[0]:
+            dist['out_of_scope_skipped'] += 1
+            continue
+        got = impl_scan_selected(c['conn'], c['links'], c['air'])
+        mm, ms = _norm(mv[1]), _norm(mv[2])
+        want = ['raise'] if mm is None else ['ok', list(mm), [list(x) for x in ms]]
+        g = ['raise'] if got[0] != 'ok' else ['ok', got[1], [p[:2] for p in got[2]]]
+        dist['scan_selected'] += 1
+        k = dist['scan_selected_kinds']
+        k['raises' if g[0] == 'raise' else 'reports'] += 1 if g[0] == 'raise' else len(g[1])
+        k['250K_links'] += sum(1 for l in c['links'] if '250K' in l)
+        k['non_default_address'] += 1 if c['conn'].count('/') >= 5 and not c['conn'].upper().endswith('E7E7E7E7E7') else 0
+        if want != g:
+            if len(dis) < 34:
+                dis.append({'what': 'scan_selected: probes / reported URIs differ', 'case': c, 'model': want, 'impl': g})
+        elif g[0] == 'ok' and g[1]:
+            nontriv += 1
     return {
-        'evaluations': sum(dist[k] for k in ('driver_fields', 'parse_wellformed', 'parse_mutated', 'parse_other_scheme', 'env_address', 'connect_calls', 'scan', 'dispatch')),
+        'evaluations': sum(dist[k] for k in ('scan_selected', 'driver_fields', 'parse_wellformed', 'parse_mutated', 'parse_other_scheme', 'env_address', 'connect_calls', 'scan', 'dispatch')),
         'distinct_nontrivial': nontriv,
         'rule': 'parse_uri on well-formed URIs (every channel 0..125, 3 rates, 1..10 hex digits in random case, numeric and '
                 'serial-number dongles with random serial lists, omitted suffixes, query options), 1-2 random edits of '
@@ -1097,6 +1233,10 @@ def oracle(ctx, deep=False):
             found = {r: [3 * i + r] for r in range(3)}
         n += 1
         add(_check_scan(addr, found))
+    for c in [c for c in _corpus_cases() if c.get('fn') == 'scan_selected'] + \
+            [gen_scan_selected(rng) for _ in range(ctx.scale(300, 4000) * (3 if deep else 1))]:
+        n += 1
+        add(_check_scan_selected(c))
     for _ in range(ctx.scale(300, 4000)):
         n += 1
         add(_check_other_wellformed(rng))
@@ -1146,6 +1286,8 @@ def replay(payload, ctx):
         if 'expect' in c:
             return _check_wellformed(c['uri'], c.get('serials', []), c['expect'])
         return None
+    if fn == 'scan_selected':
+        return _check_scan_selected(c)
     if fn == 'malformed':
         return _check_malformed(c['cls'], c['uri'], c.get('enable_serial', True))
     if fn == 'driver_fields':
